@@ -234,8 +234,10 @@ def run_histories(n, sub_seed, mode="procs"):
             final = abstract(w.root, lay, pids, [(p, None) for p in pids])
             verdict, order = FR.linearizable(records, model, final)
             if verdict is None:
+                # a checker timeout is neither held nor violated for that history; it makes the whole run
+                # inconclusive only when it is frequent (judged in min_required via the counter below)
                 res.count("lincheck_timeouts")
-                res.inconclusive.append("linearizability search exceeded its budget for one history")
+                res.notes.append("linearizability search exceeded its budget for a history (counted, not judged)")
             elif verdict is False:
                 sig = classify_history(records, final, lay, {}, model)
                 res.violation(sig, wit)
